@@ -1,8 +1,8 @@
 #!/bin/bash
-# usage: tools/run_all.sh <tier> <seed>   — runs every check, prints one line each
+# usage: [CHECKS="C04 C15"] tools/run_all.sh <tier> <seed>   — runs every (or the named) check, prints one line each
 cd /verif
 T=${1:-quick}; S=${2:-0}
-for c in C01 C02 C03 C04 C05 C06 C07 C08 C09 C10 C11 C12 C13 C14 C15 C16 C17 C18 C19 C20; do
+for c in ${CHECKS:-C01 C02 C03 C04 C05 C06 C07 C08 C09 C10 C11 C12 C13 C14 C15 C16 C17 C18 C19 C20}; do
   s=$(date +%s.%N)
   out=$(VERIF_SEED=$S bin/check $c $T 2>&1); rc=$?
   e=$(date +%s.%N)
